@@ -219,3 +219,21 @@ Proof.
 Qed.
 Example rx_names_nodup : NoDup ["Y"; "I"; "B"; "S"].
 Proof. repeat constructor; simpl; intuition discriminate. Qed.
+
+(* extend at both ends and come back (hypotheses of reindex_roundtrip are satisfiable) *)
+Example rx_roundtrip :
+  match reindex_M no_pandas no_contains cast_tbl rx_state (SRange 1999 1 5) 9 (PInt 7) None [] 100 with
+  | Ret s1 => match reindex_M no_pandas no_contains cast_tbl s1 (SRange 2000 1 3) 10 PNone None [] 200 with
+              | Ret s2 => map (fun kv => s_data (snd kv)) (c_vars s2) = map (fun kv => s_data (snd kv)) (c_vars rx_state)
+              | Raise _ => False
+              end
+  | Raise _ => False
+  end.
+Proof. vm_compute. reflexivity. Qed.
+Example rx_roundtrip_mid_ok : old_span_ok no_pandas no_contains (SRange 1999 1 5) (span_labels (SRange 2000 1 3)).
+Proof.
+  apply old_span_ok_intro.
+  - simpl. lia.
+  - intros p _. exact I.
+  - intros ls E. discriminate.
+Qed.
